@@ -180,6 +180,25 @@ impl CoreGrammar {
                 tag: "internal-define-of-parameter-name",
             });
         }
+        // B7: (define g ((lambda (k) (lambda (x) e0)) e1)) (define v e2) e
+        //     -- a closure made by a CALL inside the first internal definition, whose body refers to
+        //        a later internal definition of the same body (legal: it runs after v is defined)
+        {
+            let k = self.names(env, &["k"])[0].clone();
+            let env_no_vg2 = self.without(env, &[&v, &g]);
+            let env_closure = self.extend(env_no_vg2, &[(k.clone(), INT), (x.clone(), INT), (v.clone(), INT)]);
+            let env_vg2 = self.extend(env_v, &[(g.clone(), FUN0 + 1)]);
+            let maker = Tpl::List(vec![
+                Tpl::List(vec![tl("lambda"), Tpl::List(vec![tl(&k)]), Tpl::List(vec![tl("lambda"), Tpl::List(vec![tl(&x)]), Tpl::Hole(0)])]),
+                Tpl::Hole(1),
+            ]);
+            out.push(Prod {
+                cost: 3,
+                kids: vec![(INT, env_closure), (INT, env_no_vg2), (INT, env_no_vg2), (INT, env_vg2)],
+                tpl: Tpl::List(vec![Tpl::List(vec![tl("define"), tl(&g), maker]), def_v(2), Tpl::Hole(3)]),
+                tag: "closure-made-by-a-call-sees-later-definition",
+            });
+        }
         // B5: (define (g x) e1) (define (h x) e2) e   -- g's body may call h (forward reference)
         if !self.scope_only {
             let env_no_gh = self.without(env, &[&g, &h]);
